@@ -26,7 +26,7 @@ use serde::de::DeserializeOwned;
 use serde_json::from_slice;
 
 use crate::{
-    AvroResult, Codec, Error,
+    AvroResult, Codec,
     decode::{decode, decode_internal},
     error::Details,
     schema::{Names, Schema, resolve_names, resolve_names_with_schemata},
@@ -142,38 +142,37 @@ impl<'r, R: Read> Block<'r, R> {
     /// the block. The objects are stored in an internal buffer to the `Reader`.
     fn read_block_next(&mut self) -> AvroResult<()> {
         assert!(self.is_empty(), "Expected self to be empty!");
-        match util::read_usize(&mut self.reader).map_err(Error::into_details) {
-            Ok(block_len) => {
-                self.message_count = block_len;
-                let block_bytes = util::read_usize(&mut self.reader)?;
-                self.fill_buf(block_bytes)?;
-                let mut marker = [0u8; 16];
-                self.reader
-                    .read_exact(&mut marker)
-                    .map_err(Details::ReadBlockMarker)?;
-
-                if marker != self.marker {
-                    return Err(Details::GetBlockMarker.into());
-                }
-
-                // NOTE (JAB): This doesn't fit this Reader pattern very well.
-                // `self.buf` is a growable buffer that is reused as the reader is iterated.
-                // For non `Codec::Null` variants, `decompress` will allocate a new `Vec`
-                // and replace `buf` with the new one, instead of reusing the same buffer.
-                // We can address this by using some "limited read" type to decode directly
-                // into the buffer. But this is fine, for now.
-                self.codec.decompress(&mut self.buf)
+        // Look at the first byte of the block on its own: the stream may only end cleanly
+        // on a block boundary, so an end of input anywhere later in the block is an error.
+        let mut first = [0u8; 1];
+        loop {
+            match self.reader.read(&mut first) {
+                Ok(0) => return Ok(()),
+                Ok(_) => break,
+                Err(e) if e.kind() == ErrorKind::Interrupted => {}
+                Err(e) => return Err(Details::ReadVariableIntegerBytes(e).into()),
             }
-            Err(Details::ReadVariableIntegerBytes(io_err)) => {
-                if let ErrorKind::UnexpectedEof = io_err.kind() {
-                    // to not return any error in case we only finished to read cleanly from the stream
-                    Ok(())
-                } else {
-                    Err(Details::ReadVariableIntegerBytes(io_err).into())
-                }
-            }
-            Err(e) => Err(Error::new(e)),
         }
+        let block_len = util::read_usize(&mut (&first[..]).chain(&mut self.reader))?;
+        self.message_count = block_len;
+        let block_bytes = util::read_usize(&mut self.reader)?;
+        self.fill_buf(block_bytes)?;
+        let mut marker = [0u8; 16];
+        self.reader
+            .read_exact(&mut marker)
+            .map_err(Details::ReadBlockMarker)?;
+
+        if marker != self.marker {
+            return Err(Details::GetBlockMarker.into());
+        }
+
+        // NOTE (JAB): This doesn't fit this Reader pattern very well.
+        // `self.buf` is a growable buffer that is reused as the reader is iterated.
+        // For non `Codec::Null` variants, `decompress` will allocate a new `Vec`
+        // and replace `buf` with the new one, instead of reusing the same buffer.
+        // We can address this by using some "limited read" type to decode directly
+        // into the buffer. But this is fine, for now.
+        self.codec.decompress(&mut self.buf)
     }
 
     fn len(&self) -> usize {
